@@ -149,6 +149,37 @@ def one_case(rng, g, counting):
     return p, fails, p
 
 
+def stateful_cases(rng):
+    """pipelines with a per-epoch reshuffle below stages that freeze their input (prefetch workers, catch):
+    plain versus profiled with equally seeded generators, two epochs"""
+    import numpy as np
+    fails = []
+    n = rng.randint(2, 8)
+    seed = rng.randrange(1 << 30)
+    kind = rng.choice(['prefetch2', 'catch', 'prefetch2_catch', 'prefetch1', 'plain'])
+
+    def mk():
+        ds = lazy_dataset.new({f'k{i}': i for i in range(n)}).shuffle(reshuffle=True, rng=np.random.RandomState(seed)).map(lambda x: x + 1)
+        if kind == 'prefetch2':
+            return ds.prefetch(2, 4)
+        if kind == 'catch':
+            return ds.catch()
+        if kind == 'prefetch2_catch':
+            return ds.prefetch(2, 4, catch_filter_exception=True)
+        if kind == 'prefetch1':
+            return ds.prefetch(1, 2)
+        return ds
+    with warnings.catch_warnings():
+        warnings.simplefilter('ignore')
+        plain, prof = mk(), core.ProfilingDataset(mk())
+        for epoch in range(2):
+            a, b = run_stream(lambda: plain), run_stream(lambda: prof)
+            if a != b:
+                fails.append(('not_transparent_stateful', {'kind': kind, 'n': n, 'seed': seed, 'epoch': epoch, 'plain': a, 'profiled': b}))
+                break
+    return fails
+
+
 def run(rep):
     rng = random.Random(rep.seed * 43 + 20)
     n = 200 if rep.tier == 'quick' else 5000
@@ -165,6 +196,8 @@ def run(rep):
             distinct.add(json.dumps(ast, sort_keys=True))
             for o in set(G.ops_of(ast)):
                 dist[o] = dist.get(o, 0) + 1
+    for _ in range(60 if rep.tier == 'quick' else 1000):
+        fails += stateful_cases(rng)
     seen = set()
     for cl, det in fails:
         if cl not in seen and len(rep.violations) < 4:
